@@ -95,9 +95,9 @@ CHECKS = {
         "vmc/c14.py (E1 + E6 generator, re-rendering with qualification; separate interpreters for import-time environment)",
         "exploration",
         "exhaustive product of generated statements and special creation paths x default schema x mechanism; differential oracle against the explicitly qualified re-rendering",
-        "Every C01/C02 generator case within 1 (quick) / 2 (thorough) deviations plus 30 special table-creation paths (vertica swap-partition, LIKE/CLONE, "
+        "Every C01/C02 generator case within 1 (quick) / 2 (thorough) deviations plus 37 special table-creation paths (vertica swap-partition, LIKE/CLONE, "
         "SELECT INTO, DROP/RENAME, EXCHANGE PARTITION, INSERT OVERWRITE, MERGE, UPDATE FROM/JOIN, COPY, correlated select-list subqueries, two-statement "
-        "scripts, the legacy analyzer) x 4 default-schema values (unset, fresh, one already used as qualifier, mixed case) x 3 mechanisms (scoped override, "
+        "scripts, the legacy analyzer, mixed qualification: another schema's table of the same bare name, qualified old name renamed to a bare new name) x 4 default-schema values (unset, fresh, one already used as qualifier, mixed case) x 3 mechanisms (scoped override, "
         "environment after import, environment before import in a separate interpreter) is analysed twice: with the default, and with no default on the AST "
         "re-rendered with every unqualified table written S.name; tables, column pairs, full paths and both exports must be equal.",
         "Trusted: nothing but the renderer's notion of a table position; differential, so defects common to both sides are C01/C02's business.",
@@ -111,7 +111,10 @@ CHECKS = {
         "assignment table -> {unknown, known exactly, known superset, known with overlapping names, known but lacking the ambiguous column} and "
         "target -> {unknown, known by position, known superset of the column list}, under the dict-backed provider and SQLAlchemy on in-memory sqlite. "
         "Oracles: table lineage unchanged by metadata; column pairs equal refsem.columns with that knowledge map; a provider knowing only unrelated tables "
-        "changes nothing.",
+        "changes nothing. Further exhaustive parts: (iv) statements with two join scopes (union branch, scalar subquery, EXISTS, CTE) and same-named tables in "
+        "2-3 schemas x every assignment {unknown, has c1, has c2, neither} to their tables; (v) every history of 2 (quick) / 3 (thorough) runs from a menu of 9 scripts "
+        "(two of them failing half-way) on ONE provider object, each run compared with a fresh provider; (vi) 25 dialect-specific positions of an explicit INSERT "
+        "column list x 3 knowledge maps about the target x both providers: answer equals the one without metadata.",
         "Trusted: refsem.columns parameterised by the knowledge map (self-tested); well-formedness filter of DESIGN.md C13; hash seed 0 for outcomes that "
         "depend on set order (explored in C11); known findings matched exactly from pins/C13.json.",
         "DESIGN.md section 5 C13",
@@ -123,7 +126,8 @@ CHECKS = {
         "15 position-pair templates (table, schema, db.schema, column alias / name / column list -> later reference, alias and table name -> qualifier, "
         "CTE name -> FROM, rename operand, derived alias, self read) x every ordered pair of spellings of one base name (3 case patterns x the quote styles "
         "of the dialect) x 7 dialects: the script must treat the two spellings as one entity iff their reference normalisations are equal, and print the "
-        "normalised spelling; plus ==/hash of Schema, Table, Column over every spelling pair.",
+        "normalised spelling; whole dotted paths inside one pair of backticks vs. the path quoted part by part; plus ==/hash of Schema, Table, Column over every "
+        "spelling pair and the laws equal => same hash, equal <=> same printed name, set membership for columns x owners (tables, sub-selects under 0-2 aliases).",
         "Trusted: the reference normalisation N (unquoted -> lower, quoted -> quotes stripped); the per-template chaining evidence.",
         "DESIGN.md section 5 C16",
     ),
@@ -134,7 +138,8 @@ CHECKS = {
         "Every generator case around 4 centres (simplest statement, join of two aliased tables, join of two derived tables, CTE read twice) within the "
         "deviation bound that has local names x every injective map of its <= 3 local names into the pool {fresh, bare name of a qualified table read, bare "
         "name of the target, a column name in use, MixedCase, soft keyword} with at most 1 (quick) / 2 (thorough) non-fresh names, excluding maps that make the "
-        "statement ambiguous by reference scope rules; + AS toggled, alias added, alias removed. Tables and end-to-end pairs must be unchanged.",
+        "statement ambiguous by reference scope rules; + AS toggled, alias added, alias removed; everything once with the default configuration and once under "
+        "DEFAULT_SCHEMA=ods. Tables and end-to-end pairs must be unchanged.",
         "Trusted: the reference scope rules that decide which renamings are legal; differential otherwise. Known findings matched by minimal-cause "
         "signatures listed in known_findings.json.",
         "DESIGN.md section 5 C08",
@@ -157,8 +162,9 @@ CHECKS = {
         "exploration",
         "deviation-bounded exhaustive enumeration of 2-4 statement scripts (chain shape x producer / consumption pattern x statement kind x metadata); composition of per-statement reference dataflows as oracle",
         "Every script within 3 (quick) / 4 (thorough) deviations of a two-statement line over chain shape (line of 2/3/4, fan-in, fan-out, diamond) x producer "
-        "pattern (5) x consumption pattern per edge (8: all, subset, renamed, *, expression, unqualified / qualified / * over a join with a second table) x producer "
-        "kind (INSERT, CTAS, CREATE VIEW) x metadata (none, provider knowing the ultimate sources, provider non-empty but irrelevant) is analysed; end-to-end pairs and "
+        "pattern (8) x consumption pattern per edge (12: all, subset, renamed, *, expression, unqualified / qualified / * over a join with a second table, scalar subquery, "
+        "through a derived table, alias shadowing a column of the intermediate table) x producer "
+        "kind (INSERT, CTAS, CREATE VIEW) x metadata (none, provider knowing the ultimate sources, provider non-empty but irrelevant, provider + LATERAL_COLUMN_ALIAS_REFERENCE on) is analysed; end-to-end pairs and "
         "the table-level hops of every path must equal the relational composition of the per-statement reference dataflows, statement k evaluated with the knowledge "
         "K_k = provider + columns of tables written by statements < k.",
         "Trusted: refsem.columns and the K_k rule (attribution uses K_k always, * expansion only with a provider in use - DESIGN.md C04); each table written once. "
@@ -190,7 +196,8 @@ CHECKS = {
         "vmc/c07.py (E1 with rewrite sites as choice points over corpus + generator seeds)",
         "exploration",
         "exhaustive enumeration of single-site token-level rewrites (and per-kind all-sites, thorough: site pairs) of corpus and generator seeds; differential oracle",
-        "For every seed (corpus single statements, TPC-DS queries, generator cases around 4 centres) and every rewrite kind (whitespace -> newline+tab, blank inserted, "
+        "For every seed (corpus single statements, TPC-DS queries, generator cases around 4 centres; the ansi ones also under the sqlparse-based analyzer with the blank re-layouts and "
+        "keyword case) and every rewrite kind (whitespace -> newline+tab / single newline / single tab, blank inserted, "
         "block comment, line comment - both containing ';' -, keyword upper-cased, identifier upper-cased, lower-case identifier quoted, ';;' appended) every eligible site "
         "is rewritten singly and all sites of a kind at once (thorough: all pairs of sites for the 50 shortest seeds); tables and named-column pairs must equal the "
         "original's. Eligibility is decided by sqlfluff (parses without violation, same significant token sequence).",
@@ -204,7 +211,7 @@ CHECKS = {
         "exhaustive enumeration of single token edits of seed statements, corpus x dialect cross product, bracket nesting, unsupported-statement insertion positions; every accessor called, also after a failure",
         "(a) every single edit (delete, duplicate, swap-adjacent, insert / replace by a letter of the alphabet) at every token of 22 short (quick) / 63 (thorough, incl. long) seeds "
         "covering every extractor family and dialect-specific handler, under the seed's dialect and the sqlparse analyzer (+ ansi, + pairs of metacharacter edits in thorough); "
-        "(b) every corpus statement under 5 analyzers + its own (quick) / all 29 (thorough); (c) bracket nesting up to 30 at 4 positions; (d) every statement the library itself "
+        "(b) every corpus statement under 5 analyzers + its own (quick) / all 29 (thorough); (c) bracket nesting up to 30 at 4 positions; (d) every text of a menu of ~55 look-alikes of the supported statement kinds (names colliding with the script's tables) x dialect that the library itself "
         "declares unsupported, at every position of 1-3 supported statements, silent on/off, and texts with no statement at all. Outcome must be a result or a "
         "SQLLineageException subclass for every accessor, also on a second access after a failure; unparsable text must be InvalidSyntaxException; silent mode = "
         "warning + result of the script without the statement.",
@@ -217,9 +224,10 @@ CHECKS = {
         "model_checking",
         "exhaustive enumeration of hash assignments of the library's model objects (all permutations for <= 6 names, ordered pairs / triples at the front beyond), accessor-order "
         "permutations, repetitions; real PYTHONHASHSEED subprocesses validated against the explored outcome set",
-        "The __hash__ of Schema, Table, Path, SubQuery, Column is replaced by a table the harness controls; for each of 31 scripts (quick; + the whole corpus in thorough) chosen so "
+        "The __hash__ of Schema, Table, Path, SubQuery, Column is replaced by a table the harness controls; for each of 34 scripts (quick; + the whole corpus in thorough) chosen so "
         "that every set-typed site is reached with >= 2 elements, every assignment in the stated bound is executed on the real analysis and the full public observation (summary, "
-        "column paths, both exports in normal form) must be the same; all 24 orders of the four accessors with each called twice on one runner; three repetitions in one process "
+        "column paths, both exports in normal form) must be the same; all 24 orders of the four accessors with each called twice on one runner (for scripts that raise: each call must raise what a fresh runner raises); every ordered pair / triple "
+        "of the flag variants of get_column_lineage and the column-level export on one runner vs. a fresh runner per variant; three repetitions in one process "
         "and on one reused provider. States = hash assignments executed; traces validated = real subprocess runs with different PYTHONHASHSEED that must lie in the outcome set.",
         "Trusted: ascending-hash iteration of CPython sets for small distinct hashes (self-tested in setup); str-keyed sets inside third-party code are only sampled by the real-seed "
         "runs. Known hash-order dependent findings matched exactly (script, outcome set) from pins/C11.json.",
